@@ -126,16 +126,16 @@ func c16Units(e *env) {
 		for _, fn := range []string{"escapeJsString", "escapeUri", "escapeHtml", "changeNewlineToBr"} {
 			cases = append(cases, ucase{fn: fn, us: us})
 		}
-		for k := 1; k <= 8; k++ {
+		for _, k := range []int{0, 1, 2, 3, 5, 8} {
 			cases = append(cases, ucase{fn: "insertWordBreaks", us: us, n: k, args: hx.I(int64(k))})
 		}
 		var ns []int
-		if len(us) <= 16 {
+		if len(us) <= 10 {
 			for n := 0; n <= len(us)+2; n++ {
 				ns = append(ns, n)
 			}
 		} else {
-			ns = []int{0, 1, 2, 3, 4, 5, len(us) / 2, len(us)/2 + 1, len(us) - 4, len(us) - 3, len(us) - 2, len(us) - 1, len(us), len(us) + 1}
+			ns = []int{0, 3, 4, 5, len(us) / 2, len(us)/2 + 1, len(us) - 3, len(us) - 2, len(us) - 1, len(us)}
 		}
 		for _, n := range ns {
 			for _, ell := range []bool{true, false} {
